@@ -622,8 +622,24 @@ func checkResetReachesCarriers(c *report.Ctx) {
 			c.Check("R-ORDER", "L/rapid.reinitialize/calls/"+w, "state clearing after a reset reaches this carrier on every path", ok, fpos(re), len(calls), "%d call sites", len(calls))
 		}
 		// telemetry subscription APIs cleared when enabled
-		nt := len(an.CallsTo(re, "L/telemetry.SubscriptionAPI.Clear"))
-		c.Check("R-ORDER", "L/rapid.reinitialize/calls/telemetry-clear", "both telemetry subscription services are cleared when the telemetry API is enabled", nt == 2, fpos(re), nt, "%d Clear calls", nt)
+		tcalls := an.CallsTo(re, "L/telemetry.SubscriptionAPI.Clear")
+		nt := len(tcalls)
+		// ... and under no other condition than that flag (the registry was cleared a line earlier: "has active
+		// extensions" is false by then, and the old generation's subscriptions would survive)
+		var extra []string
+		refacts := an.NewFacts(re)
+		for _, tc := range tcalls {
+			for _, ft := range refacts.At(tc.Block()) {
+				calls, fields := condMentions(ft.Cond)
+				extra = append(extra, calls...)
+				for _, fl := range fields {
+					if fl != rapidCtxT+".telemetryAPIEnabled" {
+						extra = append(extra, fl)
+					}
+				}
+			}
+		}
+		c.Check("R-ORDER", "L/rapid.reinitialize/calls/telemetry-clear", "both telemetry subscription services are cleared when the telemetry API is enabled, whatever else holds", nt == 2 && len(extra) == 0, fpos(re), nt, "%d Clear calls; other conditions they stand under: %v", nt, uniq(extra))
 		st := an.Stores(re, "L/rapid.rapidContext", "initDone")
 		ok := len(st) == 1
 		if ok {
